@@ -634,6 +634,9 @@ func (c *Collection) writeWithXattrs(
 			}
 		}
 		e.xattrs, _ = json.Marshal(xattrs)
+		if e.value == nil {
+			e.isDeletion = true // no body (e.g. xattrs updated on a tombstone): still a deletion
+		}
 
 		if err = checkDocSize(len(e.value) + len(e.xattrs)); err != nil {
 			return nil, err
